@@ -5,6 +5,7 @@ case (engine): {"kind":"engine","via":"engine"|"server","groups":[{"prefix","rou
 case (tree):   {"kind":"tree","adds":[route],"reqs":[route]}
 """
 import itertools
+import os
 
 import vlib
 from vlib import cnat, cbool, clist, cpair, cstr, cbytes
@@ -60,7 +61,13 @@ RULE = ("route tables of 1-12 registrations over segments {a,b,c,:x,:y,:z} (dept
 TRUSTED = ["net/http request construction (driver sets r.Method / r.URL.Path directly) and httptest.ResponseRecorder",
            "path.Clean re-implemented as C03.Path.clean and compared with Go's result on every registered and requested path",
            "net/http method constants as written in C03/GenEnv.v"]
-ASSUMPTIONS = ["handlers are non-nil (errEmptyItem not exercised through the router)",
+ASSUMPTIONS = ["WithCors / WithCustomCors install cors.NotAllowedHandler through the router's public SetNotAllowedHandler override "
+               "(as upstream): with CORS on, the ROUTER's decision is checked (route handler iff a pattern of the method matches - "
+               "also for non-OPTIONS requests with Origin / Access-Control-Request-* headers; the not-allowed handler is the one "
+               "that answers iff no pattern of the method matches but another method's does - its answer is 404; the not-found "
+               "handler iff none matches; every OPTIONS request is a preflight answered 204); the '405 + exact Allow' clause is "
+               "checked with the default not-allowed handler (CORS off)",
+               "handlers are non-nil (errEmptyItem not exercised through the router)",
                "default not-allowed handler (a custom SetNotAllowedHandler replaces the Allow header logic)"]
 
 METHODS = ["DELETE", "GET", "HEAD", "OPTIONS", "PATCH", "POST", "PUT"]
@@ -456,6 +463,34 @@ def _add_jwt(rng, mounts, reqs, params):
         q["claims"] = claims
 
 
+CORS_ORIGINS = [[], [], ["*"], ["example.com"], ["example.com", "verif.test"]]
+REQ_ORIGINS = ["http://x.example.com", "https://verif.test", "http://evil.org", "null", ""]
+
+
+def _add_cors(rng, case):
+    """cors on/off dimension: the server is created with WithCors / WithCustomCors; requests (in both modes) carry
+    preflight-style headers although most of them are not OPTIONS requests, and some OPTIONS requests are added"""
+    if rng.random() < 0.55:
+        case["via"] = "server"
+        case["cors"] = {"mode": rng.choice(["cors", "cors", "custom"]), "origins": rng.choice(CORS_ORIGINS)}
+    reqs = case["reqs"]
+    for q in list(reqs):
+        if rng.random() < 0.12:
+            reqs.append(dict(q, m="OPTIONS"))
+    for q in reqs:
+        r = rng.random()
+        if r < 0.6:
+            hdr = []
+            if rng.random() < 0.8:
+                hdr.append(["Origin", rng.choice(REQ_ORIGINS)])
+            if rng.random() < 0.8:
+                hdr.append(["Access-Control-Request-Method", rng.choice(METHODS + [q["m"], "get"])])
+            if rng.random() < 0.4:
+                hdr.append(["Access-Control-Request-Headers", rng.choice(["Content-Type", "X-Verif, Authorization"])])
+            q["hdr"] = hdr
+    return case
+
+
 def generate(rng, tier, n):
     cases = []
     for _ in range(n):
@@ -463,9 +498,9 @@ def generate(rng, tier, n):
         if r < 0.12:
             cases.append(_tree_case(rng, tier))
         elif r < 0.22:
-            cases.append(_engine_case(rng, tier))
+            cases.append(_add_cors(rng, _engine_case(rng, tier)))
         elif r < 0.34:
-            cases.append(_mount_case(rng, tier))
+            cases.append(_add_cors(rng, _mount_case(rng, tier)))
         else:
             c = _router_case(rng, tier)
             pats = c.pop("_pats")
@@ -553,6 +588,15 @@ def search(rng, problems):
                             "mounts": [{"slice": 0, "opts": [{"o": "prefix", "v": "/v1"}], "mw": mw, "single": True},
                                        {"slice": 0, "opts": opts2, "mw": 0, "single": True},
                                        {"slice": 1, "opts": opts2 + [{"o": "signature"}], "mw": mw, "single": True}]})
+    # CORS on: non-OPTIONS requests with preflight-style headers must be dispatched, OPTIONS gets 204
+    csl = [_r("GET", "/a/:x"), _r("POST", "/b"), _r("DELETE", "/a/:x"), _r("OPTIONS", "/o"), _r("PUT", "/")]
+    hdrs = [[], [["Origin", "http://x.example.com"]], [["Access-Control-Request-Method", "POST"]],
+            [["Origin", "http://x.example.com"], ["Access-Control-Request-Method", "GET"], ["Access-Control-Request-Headers", "Content-Type"]]]
+    creqs = [{"m": m, "p": p, "hdr": h} for h in hdrs for m, p in
+             [("GET", "/a/7"), ("DELETE", "/a/7"), ("POST", "/b"), ("PUT", "/"), ("OPTIONS", "/a/7"), ("OPTIONS", "/o"), ("OPTIONS", "/zz"),
+              ("GET", "/zz"), ("PATCH", "/zz/y")]]
+    for cors in (None, {"mode": "cors", "origins": []}, {"mode": "custom", "origins": ["example.com"]}):
+        out.append({"kind": "engine", "via": "server", "cors": cors, "slices": [csl], "mounts": [{"slice": 0, "opts": []}], "reqs": creqs})
     # jwt-protected ':name' routes, valid tokens whose claims are named like the parameters / the context key
     jsl = [_r("GET", "/a/:x"), _r("GET", "/p/:pathVars/:id"), _r("POST", "/:y")]
     jclaims = [[], [{"k": "x", "v": "evil"}], [{"k": "pathVars", "v": "evil"}], [{"k": "pathVars", "v": {"x": "evil"}}],
@@ -583,7 +627,7 @@ def _norm(case):
         return {"kind": "router", "nf": case.get("nf", False),
                 "ops": [dict(r, op="reg") for r in case.get("regs", [])] + [dict(r, op="req") for r in case.get("reqs", [])]}
     if case.get("kind") == "engine" and "mounts" not in case:
-        return {"kind": "engine", "via": case.get("via", "engine"), "reqs": case.get("reqs", []),
+        return {"kind": "engine", "via": case.get("via", "engine"), "reqs": case.get("reqs", []), "cors": case.get("cors"),
                 "slices": [g["routes"] for g in case.get("groups", [])],
                 "mounts": [{"slice": i, "opts": [] if g.get("prefix") is None else [{"o": "prefix", "v": g["prefix"]}]}
                            for i, g in enumerate(case.get("groups", []))]}
@@ -704,11 +748,12 @@ def _encode_engine(case, obs):
 
     def mp(r):
         return cpair(_m(r["m"]), _b(r["p"]))
-    eo = "(Some (mkeobs %s %s %s %s))" % (
+    eo = "(Some (mkeobs %s %s %s %s %s))" % (
         cnat(ERR.get(obs["err"], 9)), clist([mp(r) for r in obs["routes"]]),
         clist([cpair(clist([mp(r) for r in before]), clist([mp(r) for r in after]))
                for before, after in zip(case["slices"], obs["after"])]),
-        clist([cpair(_m(c["m"]), _b(c["p"]), cnat(ERR.get(c["err"], 9))) for c in obs["calls"]]))
+        clist([cpair(_m(c["m"]), _b(c["p"]), cnat(ERR.get(c["err"], 9))) for c in obs["calls"]]),
+        cbool(bool(case.get("cors"))))
     return "mkcase false false [] [] [] %s %s %s %s []" % (
         clist([cpair(_m(m), _b(p)) for m, p in reqs]), clist(rows), clist(gs), eo)
 
@@ -763,6 +808,16 @@ def bucket(case, obs):
             out.append("engine:other-options")
         if any(mt.get("mw") for mt in case["mounts"]):
             out.append("engine:with-middlewares")
+        if case.get("cors"):
+            out.append("engine:cors=" + case["cors"]["mode"])
+            for q, r in rows:
+                pre = any(k == "Access-Control-Request-Method" for k, _ in q.get("hdr", []))
+                if q["m"] == "OPTIONS":
+                    out.append("cors:options")
+                elif pre and r["status"] == 200:
+                    out.append("cors:non-options-with-preflight-headers-dispatched")
+                elif pre:
+                    out.append("cors:non-options-with-preflight-headers-%d" % r["status"])
         if any(o["o"] in ("jwt", "jwtx") for mt in case["mounts"] for o in mt["opts"]):
             out.append("engine:jwt")
             for q, r in rows:
